@@ -35,8 +35,10 @@ if [ -z "$fails" ]; then log "TESTS: ok ($np packages ok; packages: $pk)"; else 
 rm -f /tmp/cf.$$.log
 # demonstration
 src=/tmp/seed/$id/out; demo=demo; [ "$sub" = b ] && demo=demo2
+# round 2 (and any imported seed): the demonstration kept next to the patch
+if [ -d $d/demo ]; then src=$d; demo=demo; fi
 if [ -d $src/$demo ]; then
-  mkdir -p out; cp -r $src/$demo out/$demo; [ -f $src/go.mod ] && true
+  mkdir -p out; rm -rf out/$demo; cp -r $src/$demo out/$demo
   tf=$(find out/$demo -name '*_test.go' | head -1)
   if [ -n "$tf" ] && grep -q "^package" $tf; then
     pkgdir=$(dirname $tf)
